@@ -101,6 +101,7 @@ func (p *provider) ID() string {
 
 // Get resolves a service from the root scope
 func (p *provider) Get(serviceType reflect.Type) (any, error) {
+	verifGate("G_check", p)
 	if atomic.LoadInt32(&p.disposed) != 0 {
 		return nil, ErrProviderDisposed
 	}
@@ -109,6 +110,7 @@ func (p *provider) Get(serviceType reflect.Type) (any, error) {
 		return nil, ErrServiceTypeNil
 	}
 
+	verifGate("G_root", p)
 	return p.rootScope.Get(serviceType)
 }
 
@@ -151,6 +153,7 @@ func (p *provider) GetGroup(serviceType reflect.Type, group string) ([]any, erro
 
 // CreateScope creates a new service scope
 func (p *provider) CreateScope(ctx context.Context) (Scope, error) {
+	verifGate("K_check", p)
 	if atomic.LoadInt32(&p.disposed) != 0 {
 		return nil, ErrProviderDisposed
 	}
@@ -167,18 +170,22 @@ func (p *provider) CreateScope(ctx context.Context) (Scope, error) {
 	}
 
 	// Track scope
+	verifGate("K_track", p, s)
 	p.scopesMu.Lock()
 	p.scopes[s] = struct{}{}
 	p.scopesMu.Unlock()
 
 	// Auto-close on context cancellation
 	go func() {
+		verifGate("W_wait", s)
 		<-ctx.Done()
+		verifGate("W_wake", s)
 		if err := s.Close(); err != nil {
 			// Context cancellation cleanup errors are expected during shutdown
 			// and cannot be meaningfully handled, so we ignore them
 			_ = err
 		}
+		verifEvent("W_exit", s)
 	}()
 
 	return s, nil
@@ -186,13 +193,16 @@ func (p *provider) CreateScope(ctx context.Context) (Scope, error) {
 
 // Close disposes the provider and all its resources
 func (p *provider) Close() error {
+	verifGate("P_cas", p)
 	if !atomic.CompareAndSwapInt32(&p.disposed, 0, 1) {
+		verifEvent("P_noop", p)
 		return nil // Already disposed
 	}
 
 	var errors []error
 
 	// Close all scopes
+	verifGate("P_snapshot", p)
 	p.scopesMu.Lock()
 	scopes := make([]*scope, 0, len(p.scopes))
 	for s := range p.scopes {
@@ -210,6 +220,7 @@ func (p *provider) Close() error {
 	}
 
 	// Close root scope
+	verifGate("P_root", p)
 	if p.rootScope != nil {
 		if err := p.rootScope.Close(); err != nil {
 			errors = append(errors, fmt.Errorf("root scope: %w", err))
@@ -219,6 +230,7 @@ func (p *provider) Close() error {
 	}
 
 	// Dispose all singleton disposables
+	verifGate("P_drain", p)
 	p.disposablesMu.Lock()
 	disposables := p.disposables
 	p.disposables = nil
@@ -234,6 +246,7 @@ func (p *provider) Close() error {
 	}
 
 	// Clear all internal state - clear singletons from sync.Map
+	verifGate("P_clear", p)
 	p.singletonKeysMu.Lock()
 	for _, key := range p.singletonKeys {
 		p.singletons.Delete(key)
@@ -245,6 +258,7 @@ func (p *provider) Close() error {
 	p.voidReturnScopedDescriptors = nil
 	p.voidReturnScopedDescriptorsMu.Unlock()
 
+	verifEvent("P_ret", p)
 	if len(errors) > 0 {
 		return &DisposalError{
 			Context: "provider",
